@@ -231,7 +231,7 @@ def main():
         return 2
 
     # ---- 2b. change-directed escalation (sfv/pins.py): the source moved since the models were last validated ------
-    changed = pins.changed_files(REPO)
+    changed = pins.relevant_changed(REPO, prop)
     escalation = {'changed_files': changed, 'passes': 0, 'evaluations': 0}
     esc_budget = pins.ESCALATION_BUDGET_S.get(a.tier, 0)
     if changed and esc_budget and not [f for f in failures if f.finding not in known]:
